@@ -128,6 +128,30 @@ def check(tier, seed):
                 else:
                     rep.nontrivial.add((s, tag, tg, len(rep.nontrivial)))
         rep.sample(f"[{s}] {len(shapes)} constructed hint shapes x every bit of the hint section, all rejected")
+        # --- the response section: a forged tuple whose first response polynomial cycles through the special coefficient values (0, +-1, powers of
+        # two, both ends of the accepted range) - every bit of every field of that polynomial must matter (two encodings of one coefficient,
+        # e.g. the field of +gamma1 read as 0, show here)
+        lim = p['gamma1'] - p['beta'] - 1
+        vals = [0, 1, -1, 2, -2, lim, -lim, 1 << 10, -(1 << 10), (1 << 16), -(1 << 16), 0, 3, -3, lim - 1, 0]
+        zz = fam.rand_z(rng, p, 50)
+        zz[0] = [vals[j % len(vals)] for j in range(256)]
+        msgz = bytes(rng.randrange(256) for _ in range(7))
+        pkz, sigz, okz = fam.forge(s, bytes(32), zz, hv({0: [9]}), msgz, b'', 'pure')
+        zbits = 1 + R.bitlen(p['gamma1'] - 1)
+        off = p['lam'] // 4 * 8
+        lines, tags = [f"verify {s} pure bytes:{pkz.hex()} {hx(msgz)} - {sigz.hex()}"], ['unmodified tuple']
+        for i in range(off, off + 256 * zbits):
+            x = bytearray(sigz); x[i // 8] ^= 1 << (i % 8)
+            lines.append(f"verify {s} pure bytes:{pkz.hex()} {hx(msgz)} - {x.hex()}"); tags.append('response-field bit (special coefficient values)')
+        outs = core.run_stream([core.RUST['fast']], lines)
+        rep.evaluations += len(lines)
+        for l, tg, o in zip(lines, tags, outs):
+            rep.count(tg)
+            want = 'true' if tg == 'unmodified tuple' else 'false'
+            if o != want:
+                rep.violation('implementation-vs-oracle', [l], {'tag': tg, 'output': o, 'oracle': f'must be {want}'}, True)
+            else:
+                rep.nontrivial.add((s, tg, len(rep.nontrivial)))
         # --- under the t1 = 0 key w' = A z does not depend on the challenge, so a flipped commitment-hash bit changes nothing but the
         # comparison itself: every bit of c~ must matter (a comparison over a prefix, a subset or whole words only is exposed here)
         msg = bytes(rng.randrange(256) for _ in range(9))
